@@ -450,7 +450,7 @@ def compare(ctx, g, res, drv, orc, expected):
         else:
             for k in range(0, len(ops), 1500):
                 split.append((h, ops[k:k + 1500]))
-    obs = core.run_grouped_parallel(drv, split, timeout=300, max_restarts=6)
+    obs = core.run_grouped_parallel(drv, split, timeout=1800, max_restarts=6, cpu=300)
     ogroups = [(h, ["%s => %s" % (l, a) for l, a in zip(ops, ao)]) for (h, ops), (ho, ao) in zip(split, obs)]
     exp = core.run_grouped_parallel(orc, ogroups, timeout=900)
     for (h, ops), (ho, ao), (he, ae) in zip(split, obs, exp):
